@@ -2,7 +2,7 @@
 import importlib
 
 SPECS = [
-    ("cvrp", "CVRP"), ("tsp", "TSP"),
+    ("cvrp", "CVRP"), ("cvrp", "CVRPDecimal"), ("tsp", "TSP"),
     ("atsp", "ATSP"), ("pdp", "PDP"), ("op", "OP"), ("op", "OPBoundary"),
     ("cvrptw", "CVRPTW"), ("svrp", "SVRP"), ("pctsp", "PCTSP"), ("pctsp", "PCTSPReq"), ("spctsp", "SPCTSP"), ("sdvrp", "SDVRP"),
     ("mtsp", "MTSP"), ("mdcpdp", "MDCPDP"), ("mdcpdp", "MDCPDPGen"), ("mdcpdp", "MDCPDPHet"),
